@@ -519,7 +519,7 @@ func TestC12(t *testing.T) {
 	if lib.Thorough() {
 		pb = 3
 	}
-	rep.Rule = fmt.Sprintf("real split add / commit / cancel call sequences as concurrent clients, every metadata+vmetadata store call a scheduling point; all interleavings with <=%d preemptions; crash before/after every store write of the crashing actor followed by a retry; a split run crashing at every store write, then commit / cancel, then a rerun of that split ID; invariants I1..I5 on every end state (+ late actors must fail without writing); distinct = distinct (scenario, outcome)", pb)
+	rep.Rule = fmt.Sprintf("real split add / commit / cancel call sequences as concurrent clients, every metadata+vmetadata store call a scheduling point; all interleavings with <=%d preemptions; crash before/after every store write of the crashing actor followed by a retry; a split run crashing at every store write, then commit / cancel, then a rerun of that split ID; commits of 2..3 completed splits with every listing page size 1..10 (all files of all splits); invariants I1..I5 on every end state (+ late actors must fail without writing); distinct = distinct (scenario, outcome)", pb)
 	scs := []struct {
 		sc     *lib.Scenario
 		faults int
@@ -560,6 +560,7 @@ func TestC12(t *testing.T) {
 		rep.Violate("C12|worker-"+strings.SplitN(how, ":", 2)[0]+"|"+names[i], fmt.Sprintf("scenario %s: worker %s: %s", names[i], how, output), nil)
 	})
 	if parent {
+		c11pages(t, rep, "C12") // commits of completed splits with every listing page size 1..10: no completed split left out
 		rep.Set("scenarios", names)
 		rep.Set("preemption_bound_completed", pb)
 	}
